@@ -109,15 +109,70 @@ def _corr_chunk(cases):
                 dis.append({"layer": "L1-acceptance", "text": text, "what": "model shift differs from t-l", "model": mo})
     return len(cases), dis
 
+def classifier_check():
+    """E8: the extracted `isConstraint` / `isNormal` vs the real `is_constraint` / `is_normal` on statements that clingo parses
+    (one per position template) and on all 64 shapes (attribute objects); E13: the extracted element guards vs the real
+    `transform` on body theory atoms whose element has 0..3 terms"""
+    import types
+    import clingo.ast as cast
+    import telingo.transformers.transformer as tft
+    dis, n = [], 0
+    def shape_of(stm):
+        is_rule = stm.ast_type == cast.ASTType.Rule
+        lit = is_rule and stm.head.ast_type == cast.ASTType.Literal
+        bc = lit and stm.head.atom.ast_type == cast.ASTType.BooleanConstant
+        return (is_rule, lit, bc, bool(bc and stm.head.atom.value), lit and stm.head.atom.ast_type == cast.ASTType.SymbolicAtom,
+                (not lit) or stm.head.sign == cast.Sign.NoSign)
+    stms = []
+    for pos, tpls in POS.items():
+        for tpl in ([tpls] if isinstance(tpls, str) else tpls):
+            try:
+                cast.parse_string(tpl.replace("@", "p"), lambda st: stms.append((tpl, st)))
+            except RuntimeError:
+                pass
+    real = [(tpl, shape_of(st), bool(tft.is_constraint(st)), bool(tft.is_normal(st))) for tpl, st in stms if st.ast_type != cast.ASTType.Program]
+    outs = MODEL.batch([tl.sexp(("classify",) + tuple(int(b) for b in sh)) for _, sh, _, _ in real])
+    for (tpl, sh, c, nn), mo in zip(real, outs):
+        n += 1
+        if mo.split() != [str(c).lower(), str(nn).lower()]:
+            dis.append({"layer": "E8-classifier", "text": tpl, "shape": sh, "model": mo, "impl": [c, nn]})
+    R, L, B, S = cast.ASTType.Rule, cast.ASTType.Literal, cast.ASTType.BooleanConstant, cast.ASTType.SymbolicAtom
+    combos = list(itertools.product([False, True], repeat=6))
+    outs = MODEL.batch([tl.sexp(("classify",) + tuple(int(b) for b in sh)) for sh in combos])
+    for sh, mo in zip(combos, outs):
+        r_, l_, b_, v_, y_, sn = sh
+        if b_ and y_:
+            continue
+        atom = types.SimpleNamespace(ast_type=B if b_ else (S if y_ else cast.ASTType.Comparison), value=v_)
+        head = types.SimpleNamespace(ast_type=L if l_ else cast.ASTType.Disjunction, atom=atom, sign=cast.Sign.NoSign if sn else cast.Sign.Negation)
+        stm = types.SimpleNamespace(ast_type=R if r_ else cast.ASTType.External, head=head)
+        n += 1
+        want = [str(bool(tft.is_constraint(stm))).lower(), str(bool(tft.is_normal(stm))).lower()]
+        if mo.split() != want:
+            dis.append({"layer": "E8-classifier", "shape": sh, "model": mo, "impl": want})
+    terms = {"tel": ["a", "> b", "a & b"], "del": ["a .>? b", "&true .>* a", "? a .>? b"]}
+    outs = MODEL.batch([tl.sexp(("elemguard", k)) for k in range(4)])
+    for k in range(4):
+        for j, th in enumerate(("tel", "del")):
+            n += 1
+            text = "#program always. {a;b}. :- &%s { %s : 1 < 2 }." % (th, ", ".join(terms[th][:k]))
+            got = outcome(text, True)
+            want = "rej" if outs[k].split()[j] == "true" else "ok"
+            if got != want:
+                dis.append({"layer": "E13-element-guard", "text": text, "terms": k, "model": outs[k], "impl": got})
+    return n, dis
+
 def correspondence(ctx):
     r = random.Random(ctx.seed * 97 + 1)
     cases = grid(ctx.tier, r)
     n = 0
     dis = []
+    ncl, dcl = classifier_check()
+    dis += dcl
     for c, d in par.pmap(_corr_chunk, par.chunks(cases, ctx.jobs * 2), ctx.jobs):
         n += c
         dis += d
-    return {"grid_cases": n, "positions": len(POS), "atom_forms": len(forms()),
+    return {"grid_cases": n, "positions": len(POS), "atom_forms": len(forms()), "classifier_and_element_guard_cases": ncl,
             "sample": {"program": "#program always. " + POS["disjCond"].replace("@", "''p'")}}, dis
 
 THEORY_CASES = [
@@ -149,6 +204,23 @@ THEORY_CASES = [
     ("#program always. {a}. :- &tel { a'b }.", "ok", True),
     ("#program always. {a}. :- &tel { __a }.", "ok", True),
 ]
+
+def element_cases():
+    """theory atoms in accepted body placements whose elements carry 1, 2 or 3 terms — `&tel` and `&del`, with and without
+    conditions, one or two elements: rejected exactly if some element has more than one term"""
+    out = []
+    one = {"tel": ["a", "> a", "a & b"], "del": ["a .>? b", "&true .>* a", "? a + b .>? a"]}
+    for th in ("tel", "del"):
+        for ctx_ in (":- {}.", ":- not {}.", "w :- not {}.", "w :- not not {}, a.", ":- b, {}."):
+            for f in one[th]:
+                for extra in (0, 1, 2):
+                    for cond in ("", " : b", " : 1 < 2"):
+                        el = ", ".join([f] + one[th][:extra]) + cond
+                        for more in ("", "; " + one[th][1], "; " + one[th][1] + ", " + one[th][0]):
+                            bad = extra > 0 or more.count(",") > 0
+                            text = "#program always. {a;b}. " + ctx_.format("&%s { %s%s }" % (th, el, more))
+                            out.append((text, "rej" if bad else "ok", False))
+    return out
 
 def _search_chunk(cases):
     lines = [tl.sexp(("placement", c[0], c[2][1], c[2][2], c[2][3])) for c in cases]
@@ -225,7 +297,8 @@ def search(ctx, deep):
     for c, f in par.pmap(_context_chunk, par.chunks(context_cases(r, ctx.tier if not deep else "thorough"), ctx.jobs * 2), ctx.jobs):
         nctx += c
         fails += f
-    for text, want, run in THEORY_CASES:
+    elem_cases = element_cases()
+    for text, want, run in THEORY_CASES + elem_cases:
         got = outcome(text, run)
         if got != want:
             fails.append({"kind": "theory-placement", "text": text, "expected": want, "got": got})
@@ -244,7 +317,7 @@ def search(ctx, deep):
         got = outcome(full)
         if got != want:
             fails.append({"kind": "nested-placement", "text": full, "expected": want, "got": got})
-    return {"grid_cases": n, "after_context_cases": nctx, "theory_atom_cases": len(THEORY_CASES), "nested_statements": len(nested),
+    return {"grid_cases": n, "after_context_cases": nctx, "theory_atom_cases": len(THEORY_CASES), "element_term_cases": len(elem_cases), "nested_statements": len(nested),
             "sample": {"program": "#program final. " + POS["negDisjElem"].replace("@", "p''")}}, fails
 
 def replay(obj):
